@@ -159,7 +159,7 @@ func Mutations(s *Spec) []*Spec {
 	var nodes []*Spec
 	s.Walk(func(n *Spec) { nodes = append(nodes, n) })
 	for idx := range nodes {
-		for m := 0; m < 12; m++ {
+		for m := 0; m < 14; m++ {
 			c := s.Clone()
 			var cn []*Spec
 			c.Walk(func(n *Spec) { cn = append(cn, n) })
@@ -265,6 +265,24 @@ func mutateNode(n *Spec, m int) bool {
 				n.FMax = nil
 				return true
 			}
+		}
+	case 12: // enum kind swapped (integer enum <-> string enum)
+		switch n.Kind {
+		case KIntEnum:
+			*n = Spec{Kind: KStrEnum, EnumS: []string{"1", "2"}}
+			return true
+		case KStrEnum, KTypedEnum:
+			*n = Spec{Kind: KIntEnum, EnumI: []int64{1, 2}}
+			return true
+		}
+	case 13: // scalar swapped for the enum of the other base kind
+		switch n.Kind {
+		case KInt:
+			*n = Spec{Kind: KStrEnum, EnumS: []string{"a"}}
+			return true
+		case KString:
+			*n = Spec{Kind: KIntEnum, EnumI: []int64{1}}
+			return true
 		}
 	case 11: // item type of a list
 		if n.Kind == KList && n.Item != nil && n.Item.Kind != KBool {
